@@ -1,5 +1,6 @@
 """C04 — sorted sets stay ordered; rank, range and score agree (correspondence part)."""
 import itertools
+import vlib
 from checks import apicheck
 from gen_api import fbits
 
@@ -68,6 +69,28 @@ def big(rng):
     return ops
 
 
+def bounds_table():
+    """every by-score command x inclusive / exclusive marks on either bound x bounds that sit exactly on
+    members' scores (and between them), with LIMIT and WITHSCORES variants, over the network protocol"""
+    from gen_api import hx
+    c = lambda *a: "resp c1 " + " ".join(hx(x) for x in a)
+    ops = ["open a mem", "conn c1"]
+    fill = c("ZADD", "bz", "1", "a", "2", "b", "3", "c", "4", "d", "4", "e", "-1", "n")
+    ops.append(fill)
+    for lo in ("1", "2", "1.5", "-inf", "-1"):
+        for hi in ("3", "4", "3.5", "+inf", "1"):
+            for el in ("", "("):
+                for eh in ("", "("):
+                    L, H = el + lo, eh + hi
+                    ops += [c("ZRANGEBYSCORE", "bz", L, H), c("ZREVRANGEBYSCORE", "bz", H, L), c("ZCOUNT", "bz", L, H),
+                            c("ZRANGE", "bz", L, H, "BYSCORE"), c("ZRANGE", "bz", H, L, "BYSCORE", "REV"),
+                            c("ZRANGEBYSCORE", "bz", L, H, "LIMIT", "1", "2"), c("ZREVRANGEBYSCORE", "bz", H, L, "WITHSCORES", "LIMIT", "1", "2"),
+                            c("ZRANGE", "bz", H, L, "BYSCORE", "REV", "LIMIT", "0", "1", "WITHSCORES"),
+                            c("ZREMRANGEBYSCORE", "bz", L, H), c("ZRANGE", "bz", "1", "100", "WITHSCORES"), c("DEL", "bz"), fill]
+    ops.append("dump")
+    return ops
+
+
 def run(ctx, proofs_ok):
     quick = ctx.tier == "quick"
     apicheck.run_streams(ctx, [
@@ -81,3 +104,12 @@ def run(ctx, proofs_ok):
     ], extra=[("exhaustive short operation sequences over 3 members x 3 scores (incl. -0)", small_sequences(2 if quick else 3), False),
               ("exhaustive rank / score windows on sets of 0..4 members", windows(), False),
               ("400-member set: several skiplist levels, rank queries, range removals", big(ctx.rng), False)])
+    if ctx.violations:
+        return
+    # the command layer (argument text, option words, replies) of the same families over the network protocol
+    vlib.correspond_stream(ctx, vlib.build_harness(ctx), bounds_table(), "bounds", "every by-score command x inclusive / exclusive marks on either bound x bounds exactly on members' scores (network protocol)")
+    if ctx.violations:
+        return
+    apicheck.run_resp_streams(ctx, [
+        {"label": "sorted-set commands over the network protocol (handlers: bounds with exclusive marks, LIMIT, option combinations) against the model", "fams": ['zs', 'zs', 'zs', 'keyspace'], "n": (2500, 8000), "count": (2, 16), "conns": 1},
+    ])
